@@ -92,6 +92,51 @@ def run(ck):
                 ck.nontrivial((proc, term_io.term_key(ev["f"])))
             except Exception as ex:
                 ev["exc"] = "%s: %s" % (type(ex).__name__, str(ex)[:120])
+    # ---- inputs whose symbols carry the names the converters give to their fresh symbols (FV<n>, ack<n>): a formula
+    # produced by an earlier conversion, dumped and read into a new environment, looks like this.  One fresh environment
+    # per formula (the name counter starts at 0), numberings: consecutive from 0, from 1, with gaps, descending.
+    from harness.drivers.c07 import rename
+
+    def sym_names(j, acc):
+        if j["op"] == "symbol" and j["n"] not in acc:
+            acc.append(j["n"])
+        for c in j["a"]:
+            sym_names(c, acc)
+        return acc
+    n_clash = 0
+    for src, tmpl, procs in ((qf_s, "FV%d", ("cnf", "cnf_as_set", "polarity_cnf")), (uf_s, "ack%d", ("ack",))):
+        for j in ck.rng.sample(src, min(len(src), 160 if quick else 1500)):
+            ns = sym_names(j, [])
+            if len(ns) < 2:
+                continue
+            nums = ck.rng.choice([list(range(0, 8)), list(range(1, 9)), [0, 1, 3, 4, 6, 7, 9, 10], [5, 4, 3, 2, 1, 0, 7, 6], [1, 2, 0, 4, 5, 3, 7, 6]])
+            jj = rename(j, {n: tmpl % nums[i] for i, n in enumerate(ns[:8])})
+            env_c = fresh_env()
+            try:
+                f = term_io.build_public(jj, env_c)
+            except Exception:
+                continue
+            n_clash += 1
+            for proc in procs:
+                ev = new_ev("ack" if proc == "ack" else "cnf", proc + "_names_like_fresh", f)
+                try:
+                    if proc == "cnf":
+                        o = rw.cnf(f, env_c)
+                    elif proc == "cnf_as_set":
+                        o = env_c.formula_manager.And([env_c.formula_manager.Or(list(c)) for c in rw.cnf_as_set(f, env_c)])
+                    elif proc == "polarity_cnf":
+                        o = rw.PolarityCNFizer(env_c).convert_as_formula(f)
+                    else:
+                        ack = rw.Ackermannizer(env_c)
+                        o = ack.do_ackermannization(f)
+                        ev["map"] = [{"app": term_io.export(t), "c": c.symbol_name()} for t, c in ack.get_term_to_const_dict().items()]
+                    ev["out"] = term_io.export_result(o)
+                    ev["res"] = "ok"
+                    ck.nontrivial((proc + "_clash", term_io.term_key(ev["f"])))
+                except Exception as ex:
+                    ev["exc"] = "%s: %s" % (type(ex).__name__, str(ex)[:120])
+    ck.part("inputs_named_like_fresh_symbols", formulas=n_clash)
+    fresh_env()
     verdicts, st = tlc.validate_events("Trace_Pure", evs, constants={"Seed": ck.seed % 1000, "Cap": 48 if quick else 128})
     ck.add_tlc(st)
     byid = {e["id"]: e for e in evs}
